@@ -1079,8 +1079,14 @@ func (ce *commandEncoder) flush() {
 		// failed by the read goroutine once it notices that the connection
 		// is closed: it may be dispatching data to them right now, so
 		// completing them from this goroutine would race with it.
-		ce.client.conn.Close()
+		//
+		// If the command isn't pending anymore, the server has already
+		// completed it before we were done writing it (e.g. it refused a
+		// literal with a tagged NO or BAD): that's the error the encoder
+		// reports, nothing was left half-written and the connection is
+		// still usable.
 		if cmd := ce.client.deletePendingCmdByTag(ce.cmd.tag); cmd != nil {
+			ce.client.conn.Close()
 			ce.client.completeCommand(cmd, err)
 		}
 	}
